@@ -124,7 +124,7 @@ def search_production_difference(ctx, ir, doc, fresh_module, bench):
         e_ir = L.Earley(start, [(q.lhs, q.rhs) for q in ir])
         for s in cands:
             in_doc, in_ir = e_doc.accepts(s), e_ir.accepts(s)
-            res, _ = L.py_run(cp, s, FUEL(len(s)), bench.I)
+            res, _ = L.py_run_safe(cp, s, FUEL(len(s)), bench.I)
             accepted = res[1] == 1
             if in_doc == accepted:
                 continue
@@ -142,10 +142,11 @@ def add_cases(ctx, bench, name, slots, parsers, inputs, sink):
         fuel = FUEL(len(syms))
         py = []
         for cp in cps:
-            r, problems = L.py_run(cp, syms, fuel, bench.I)
+            r, problems = L.py_run_safe(cp, syms, fuel, bench.I)
             py.append(r)
             for pr in problems:
-                ctx.violation("parse-tree-metadata", "Parser.parse result inconsistent: " + pr,
+                ctx.violation("lr1-parse-exception" if pr.startswith("exception:") else "parse-tree-metadata",
+                          "Parser.parse result inconsistent: " + pr,
                               dict(kind="tokens", parser=name, tokens=syms, problem=pr), found_input=True)
         nums = [bench.I.s(x) for x in syms]
         entry = dict(kind=kind, syms=syms, py=py, model=[None] * len(slots), name=name)
@@ -415,8 +416,8 @@ def search_table_difference(ctx, bench, name, diffs, parent, loaded_parser, fres
             cands.append(prefix + ([t] if t else []))
         for s in cands:
             tried += 1
-            r1, _ = L.py_run(cl, s, FUEL(len(s)), I)
-            r2, _ = L.py_run(cf, s, FUEL(len(s)), I)
+            r1, _ = L.py_run_safe(cl, s, FUEL(len(s)), I)
+            r2, _ = L.py_run_safe(cf, s, FUEL(len(s)), I)
             if r1 != r2:
                 return dict(kind="tokens", parser=name, tokens=s, loaded=_decode(I, r1), fresh=_decode(I, r2),
                             difference=d["what"], state_pair=list(d["pair"]), symbol_path=path, candidates_tried=tried)
